@@ -135,29 +135,26 @@ def ordered_expr(p: Program, f: Func, e, depth=0, trail=None) -> Tuple[bool, str
         if not binds:
             return False, f"`{name}` has no local definition"
         for b in binds:
-            v = b.value
-            if isinstance(v, ast.DictComp):
-                gen = v.generators[0]
-                if len(v.generators) != 1 or gen.ifs or norm(v.key) != norm(gen.target):
-                    return False, f"dict comprehension `{norm(v)[:60]}` is not keyed by its own loop variable"
-                ok, why = ordered_expr(p, f, gen.iter, depth + 1, trail)
-                if not ok:
-                    return False, why
-                continue
-            if isinstance(v, ast.Dict) and not v.keys or (isinstance(v, ast.Call) and norm(v.func) == "dict" and not v.args):
-                ok, why = _dict_filled_in_order(p, f, name, depth, trail)
-                if not ok:
-                    return False, why
-            elif isinstance(v, ast.List) and not v.elts:
-                ok, why = _list_filled_in_order(p, f, name, depth, trail)
-                if not ok:
-                    return False, why
-            else:
-                ok, why = ordered_expr(p, f, v, depth + 1, trail)
+            vs = [b.value.body, b.value.orelse] if isinstance(b.value, ast.IfExp) else [b.value]  # both alternatives must be ordered
+            for v in vs:
+                ok, why = _ordered_value(p, f, name, v, depth, trail)
                 if not ok:
                     return False, why
         return True, ""
     return False, f"`{norm(e)[:60]}` is not a recognised ordered source"
+
+
+def _ordered_value(p, f, name, v, depth, trail):
+    if isinstance(v, ast.DictComp):
+        gen = v.generators[0]
+        if len(v.generators) != 1 or gen.ifs or norm(v.key) != norm(gen.target):
+            return False, f"dict comprehension `{norm(v)[:60]}` is not keyed by its own loop variable"
+        return ordered_expr(p, f, gen.iter, depth + 1, trail)
+    if isinstance(v, ast.Dict) and not v.keys or (isinstance(v, ast.Call) and norm(v.func) == "dict" and not v.args):
+        return _dict_filled_in_order(p, f, name, depth, trail)
+    if isinstance(v, ast.List) and not v.elts:
+        return _list_filled_in_order(p, f, name, depth, trail)
+    return ordered_expr(p, f, v, depth + 1, trail)
 
 
 def _is_in(node, func):
